@@ -318,9 +318,16 @@ func cmdCheck(args []string) int {
 						first[k] = r
 						continue
 					}
-					if f.Emits[name] != text && !reported[k] {
+					if normEmit(f, f.Emits[name]) != normEmit(r, text) && !reported[k] {
 						reported[k] = true
-						// two schedules, two outputs: confirm natively by repeated runs
+						// two schedules, two outputs: confirm natively
+						for _, pr := range []*interp.PathResult{f, r} {
+							if pr.PCModel == nil {
+								if mdl, err := interp.SolveModel(os.Getenv("GOSYM_SOLVER"), pr.Decls, pr.PC, pr.Evals); err == nil {
+									pr.PCModel = mdl
+								}
+							}
+						}
 						rp, err := makeReplay(m, id, u, r, -1)
 						if err != nil {
 							ue.uncovered("replay construction failed for schedule-dependent output: " + err.Error())
@@ -330,7 +337,22 @@ func cmdCheck(args []string) int {
 						_ = os.WriteFile(filepath.Join(rp.Dir, "schedule_A.txt"), []byte(fmt.Sprintf("script %v\n\n%s", f.Script, f.Emits[name])), 0o644)
 						_ = os.WriteFile(filepath.Join(rp.Dir, "schedule_B.txt"), []byte(fmt.Sprintf("script %v\n\n%s", r.Script, text)), 0o644)
 						distinct := map[string]bool{}
-						for run := 0; run < 30 && len(distinct) < 2; run++ {
+						if u.MapOrd == 0 {
+							// deterministic choice paths: replay both natively, once each
+							rpA, errA := makeReplay(m, id, u, f, -1)
+							if errA == nil {
+								rpA.Params = params
+								for _, one := range []*Replay{rpA, rp} {
+									res := runReplay(one)
+									ev.Replays++
+									if res.Ran {
+										b, _ := os.ReadFile(filepath.Join(one.Dir, "emit_"+name+".txt"))
+										distinct[string(b)] = true
+									}
+								}
+							}
+						}
+						for run := 0; u.MapOrd > 0 && run < 30 && len(distinct) < 2; run++ {
 							res := runReplay(rp)
 							ev.Replays++
 							if !res.Ran {
@@ -342,14 +364,14 @@ func cmdCheck(args []string) int {
 						if len(distinct) >= 2 {
 							ev.ReplaysReproduced++
 							violationLines = append(violationLines, fmt.Sprintf("VIOLATION property=%s replay=%s", id, rp.Dir))
-							ue.violation(caseKey{u.Name, "C12.same-output-under-every-map-order", "", "violated"}, 1, rp.Dir, "output "+name+" depends on map iteration order (reproduced natively in repeated runs)")
+							ue.violation(caseKey{u.Name, id + ".same-output-on-every-explored-order", "", "violated"}, 1, rp.Dir, "output "+name+" differs between two explored orders/schedules (reproduced natively)")
 						} else {
 							ue.uncovered("the engine found two map orders with different output " + name + " (" + rp.Dir + "), not reproduced natively in 30 runs")
 						}
 					}
 				}
 			}
-			ue.Checks["C12.same-output-under-every-map-order"] = map[string]int{"paths-compared": len(pool.Results), "classes": len(first)}
+			ue.Checks[id+".same-output-on-every-explored-order"] = map[string]int{"paths-compared": len(pool.Results), "classes": len(first)}
 		}
 		// native twins: sampled passing paths, concretised from a model of their path condition,
 		// re-run natively (real generator, real emitted code, real libraries); every check
@@ -517,4 +539,13 @@ func hashOf(parts ...string) string {
 		h.Write([]byte{0})
 	}
 	return fmt.Sprintf("%x", h.Sum(nil))[:12]
+}
+
+// normEmit replaces hole identifiers (numbered along each path) by their terms, so that
+// emitted text can be compared across paths.
+func normEmit(r *interp.PathResult, text string) string {
+	for k := len(r.Holes) - 1; k >= 0; k-- {
+		text = strings.ReplaceAll(text, r.Holes[k].Ident, "HOLE<"+r.Holes[k].Term+">")
+	}
+	return text
 }
